@@ -202,7 +202,7 @@ def terms_frame(ctx, eq):
         if now is then or z3.eq(now, then):
             continue
         live = z3.And(r > 0, r < old.alloc)
-        if name == 'len' or name.startswith('el.'):
+        if name.startswith('len.') or name.startswith('el.'):
             conj.append(forall([r], z3.Implies(z3.And(live, r != tl.t), z3.Select(now, r) == z3.Select(then, r)), patterns=[z3.Select(now, r)]))
         elif name == 'f.Term.Constant':
             conj.append(forall([r], z3.Implies(z3.And(live, z3.Select(O0, r) != eq.t), z3.Select(now, r) == z3.Select(then, r)), patterns=[z3.Select(now, r)]))
@@ -275,7 +275,7 @@ def terms_frame2(ctx, a, b):
         if now is then or z3.eq(now, then):
             continue
         live = z3.And(r > 0, r < old.alloc)
-        if name == 'len' or name.startswith('el.'):
+        if name.startswith('len.') or name.startswith('el.'):
             conj.append(forall([r], z3.Implies(z3.And(live, r != ta.t, r != tb.t), z3.Select(now, r) == z3.Select(then, r)), patterns=[z3.Select(now, r)]))
         elif name == 'f.Term.Constant':
             conj.append(forall([r], z3.Implies(z3.And(live, z3.Select(O0, r) != a.t, z3.Select(O0, r) != b.t), z3.Select(now, r) == z3.Select(then, r)), patterns=[z3.Select(now, r)]))
